@@ -17,6 +17,8 @@ pub trait DynPart: Sync {
     fn part(&self) -> &'static str;
     fn run(&self, cfg: &RunCfg, known: &[KnownFinding]) -> PartResult;
     fn replay(&self, choices: &[u64]) -> (Outcome, Value);
+    /// decode a case without running it
+    fn describe(&self, choices: &[u64]) -> Value;
 }
 
 pub enum Mode {
@@ -76,5 +78,11 @@ impl<P: Prop> DynPart for Gen<P> {
 
     fn replay(&self, choices: &[u64]) -> (Outcome, Value) {
         run_one(&self.prop, choices)
+    }
+
+    fn describe(&self, choices: &[u64]) -> Value {
+        let mut src = crate::core::Src::new(choices);
+        let case = self.prop.gen(&mut src);
+        self.prop.describe(&case)
     }
 }
